@@ -115,6 +115,9 @@ struct GateState {
     forced: u32,
     /// who held the turn, hand-over by hand-over: the interleaving that actually took place
     trace: Vec<u8>,
+    /// consecutive "found the lock taken" hand-overs with no ordinary scheduling point in between
+    /// (an ordinary point means somebody got past a primitive, i.e. progress)
+    stalled: u32,
 }
 
 /// Payload of the panic with which a simulated caller thread leaves the library when both callers
@@ -128,7 +131,7 @@ thread_local! {
 impl Gate {
     pub fn new(order: &[u8]) -> std::sync::Arc<Gate> {
         let g = Gate {
-            m: std::sync::Mutex::new(GateState { turn: None, order: order.iter().copied().collect(), done: [false; 2], blocked: [false; 2], switches: 0, epoch: 0, forced: 0, trace: vec![] }),
+            m: std::sync::Mutex::new(GateState { turn: None, order: order.iter().copied().collect(), done: [false; 2], blocked: [false; 2], switches: 0, epoch: 0, forced: 0, trace: vec![], stalled: 0 }),
             cv: std::sync::Condvar::new(),
         };
         {
@@ -172,6 +175,7 @@ impl Gate {
         if finished {
             st.done[me as usize] = true;
         }
+        st.stalled = 0;
         if st.turn != Some(me) && !finished {
             return; // the turn was taken from this caller while it was blocked for real
         }
@@ -192,17 +196,28 @@ impl Gate {
     pub fn trace(&self) -> Vec<u8> {
         self.m.lock().unwrap().trace.clone()
     }
-    /// `me` found a lock held by the other caller: run the other one. Err = nobody can run.
+    /// `me` found a lock taken: let the other caller run (it may be the holder, or it may itself be
+    /// waiting for something `me` has released meanwhile), then try again. Err = deadlock: the
+    /// callers have kept finding their locks taken, turn after turn, without anybody getting past a
+    /// primitive in between.
     fn yield_blocked(&self, me: u8) -> Result<(), ()> {
         let other = 1 - me;
         {
             let mut st = self.m.lock().unwrap();
-            if st.done[other as usize] || st.blocked[other as usize] {
+            st.stalled += 1;
+            if st.stalled > 4 {
                 return Err(());
+            }
+            if st.done[other as usize] {
+                // nobody else can release it; a couple of retries, then it is a deadlock with oneself
+                return Ok(());
             }
             st.blocked[me as usize] = true;
             st.turn = Some(other);
             st.switches += 1;
+            if st.trace.len() < 256 {
+                st.trace.push(other);
+            }
             st.epoch += 1;
             self.cv.notify_all();
         }
